@@ -116,6 +116,22 @@ theorem linkPos_take_append {c : Chain} {l : Link} {p : Nat} (r : Chain) (h : li
       subst h
       simp [posOf_take_append r hp (by omega : i < i + 1)]
 
+/-- appending behind the last node moves no link -/
+theorem linkPos_append {c : Chain} {l : Link} {p : Nat} (r : Chain) (h : linkPos c l = some p) :
+    linkPos (c ++ r) l = some p := by
+  cases l with
+  | head => simpa [linkPos] using h
+  | after n =>
+    simp only [linkPos] at h ⊢
+    cases hp : posOf n c with
+    | none => simp [hp] at h
+    | some i =>
+      simp [hp] at h
+      subst h
+      have := posOf_take_append (p := c.length) r hp (posOf_lt hp)
+      rw [List.take_length] at this
+      simp [this]
+
 theorem linkPos_eraseAt {c : Chain} {l : Link} {p : Nat} (h : linkPos c l = some p) :
     linkPos (eraseAt c p) l = some p := linkPos_take_append _ h
 
